@@ -7,9 +7,11 @@
 (*   a, i, t, n, hint, inc, blk      the call (as in the schedule)           *)
 (*   ev[i] = <<ch, cb, neg, done, sh, sv, reorg, upd>> per registration slot *)
 (*   chint[t], shint[o]               both hint caches, -1 = no entry        *)
-(*   hd = <<has, s, e>>, err, panic                                          *)
+(*   hd = <<has, s, e>>, err, panic, hang                                    *)
 EXTENDS TxNotifier, Json
-VARIABLE l
+VARIABLES l,       \* next line of the trace
+          rtold,   \* the clients' belief computed from the RECORDED notifications
+          rtoldAt  \* ... and the block they were told about
 
 Incl1 == {<<0>>, <<1>>, <<2>>}
 Incl2 == {<<a, b>> : a \in 0..2, b \in 0..2}
@@ -18,7 +20,7 @@ Trace == ndJsonDeserialize("trace.ndjson")
 Last == Trace[l - 1]
 Cur  == Trace[l]
 
-TInit == Init /\ l = 1
+TInit == Init /\ l = 1 /\ rtold = [i \in RegIds |-> FALSE] /\ rtoldAt = [i \in RegIds |-> NoAt]
 Is(a) == l <= Len(Trace) /\ Trace[l].a = a /\ l' = l + 1
 IncOf(x) == [o \in Outs |-> x[o]]
 
@@ -38,18 +40,31 @@ Reset ==
   /\ out' = Quiet /\ hd' = NoR /\ err' = 0
   /\ told' = [i \in RegIds |-> FALSE]
   /\ toldAt' = [i \in RegIds |-> NoAt]
+  /\ rtold' = [i \in RegIds |-> FALSE] /\ rtoldAt' = [i \in RegIds |-> NoAt]
+
+\* what a client that reads its channels after the call at line l believes (reorg notice first)
+RGhost ==
+  /\ rtold' = [i \in RegIds |->
+       IF Cur.a = "Cancel" /\ Cur.i = i THEN FALSE
+       ELSE IF Cur.ev[i][1] # -1 \/ Cur.ev[i][5] # -1 THEN TRUE
+       ELSE IF Cur.ev[i][3] # 0 \/ Cur.ev[i][7] # 0 THEN FALSE ELSE rtold[i]]
+  /\ rtoldAt' = [i \in RegIds |->
+       IF Cur.a = "Cancel" /\ Cur.i = i THEN NoAt
+       ELSE IF Cur.ev[i][1] # -1 THEN [h |-> Cur.ev[i][1], b |-> Cur.ev[i][2]]
+       ELSE IF Cur.ev[i][5] # -1 THEN [h |-> Cur.ev[i][5], b |-> BlkAt(chain', Cur.ev[i][5])]
+       ELSE IF Cur.ev[i][3] # 0 \/ Cur.ev[i][7] # 0 THEN NoAt ELSE rtoldAt[i]]
 
 TNext ==
-  \/ Is("Connect") /\ Cur.blk = nextBlk /\ Connect(IncOf(Cur.inc))
-  \/ Is("Disconnect") /\ Disconnect
-  \/ Is("RegConf") /\ RegisterConf(Cur.i, Cur.t, Cur.n, Cur.hint)
-  \/ Is("RegSpend") /\ RegisterSpend(Cur.i, Cur.t, Cur.hint)
-  \/ Is("Cancel") /\ Cancel(Cur.i)
-  \/ Is("HistConf") /\ HistConf(Cur.t)
-  \/ Is("HistSpend") /\ HistSpend(Cur.t)
+  \/ Is("Connect") /\ Cur.blk = nextBlk /\ Connect(IncOf(Cur.inc)) /\ RGhost
+  \/ Is("Disconnect") /\ Disconnect /\ RGhost
+  \/ Is("RegConf") /\ RegisterConf(Cur.i, Cur.t, Cur.n, Cur.hint) /\ RGhost
+  \/ Is("RegSpend") /\ RegisterSpend(Cur.i, Cur.t, Cur.hint) /\ RGhost
+  \/ Is("Cancel") /\ Cancel(Cur.i) /\ RGhost
+  \/ Is("HistConf") /\ HistConf(Cur.t) /\ RGhost
+  \/ Is("HistSpend") /\ HistSpend(Cur.t) /\ RGhost
   \/ Reset
-  \/ (l = Len(Trace) + 1 /\ UNCHANGED <<vars, l>>)
-TSpec == TInit /\ [][TNext]_<<vars, l>>
+  \/ (l = Len(Trace) + 1 /\ UNCHANGED <<vars, l, rtold, rtoldAt>>)
+TSpec == TInit /\ [][TNext]_<<vars, l, rtold, rtoldAt>>
 
 Live == l > 1 /\ Last.a # "Reset"
 B(x) == IF x THEN 1 ELSE 0
@@ -64,6 +79,16 @@ RecSpendTruthful == Live => \A i \in RegIds : Last.ev[i][5] # -1 =>
   /\ regs[i].k = "spend"
   /\ SpentAt(regs[i].t) = Last.ev[i][5]
   /\ chain[Last.ev[i][5]].inc[regs[i].t] = Last.ev[i][6]
+\* told exactly when the N-th confirmation is on the active chain / the outpoint is spent
+RecConfTimely == Live => \A i \in RegIds :
+  (Watching(i, "conf") /\ hc[regs[i].t] = NoR /\ Confs(regs[i].t) >= regs[i].n) => rtold[i]
+RecSpendTimely == Live => \A i \in RegIds :
+  (Watching(i, "spend") /\ hs[regs[i].t] = NoR /\ SpentAt(regs[i].t) # 0) => rtold[i]
+\* a client that was told and got no reorg notice since is right about the block
+RecSound == Live => \A i \in RegIds : (rtold[i] /\ regs[i].st \in {"live", "done"}) =>
+  /\ BlkAt(chain, rtoldAt[i].h) = rtoldAt[i].b
+  /\ (regs[i].k = "conf" => ConfAt(regs[i].t) = rtoldAt[i].h)
+  /\ (regs[i].k = "spend" => SpentAt(regs[i].t) = rtoldAt[i].h)
 RecReorgOnlyOnDisconnect == Live => \A i \in RegIds :
   (Last.ev[i][3] # 0 \/ Last.ev[i][7] # 0) => Last.a = "Disconnect"
 RecDoneOnlyDeep == Live => \A i \in RegIds : Last.ev[i][4] # 0 =>
@@ -85,5 +110,6 @@ ConformHints == Live =>
   /\ \A t \in ConfTargets : Last.chint[t] = chint[t]
   /\ \A o \in SpendTargets : Last.shint[o] = shint[o]
 ConformDispatch == Live => Last.hd = <<B(hd # NoR), hd.s, hd.e>>
-ConformErr == Live => Last.err = err /\ Last.panic = B(panic)
+\* no error, no panic, and every call returned (hang = a send on a full channel under the mutex)
+ConformErr == Live => Last.err = err /\ Last.panic = B(panic) /\ Last.hang = 0
 =============================================================================
